@@ -284,6 +284,11 @@ func genGroup(r *rand.Rand, idx int) []*Case {
 		}
 	}
 	var out []*Case
+	// one group in 20: every call of the group is made while two other goroutines use the same codec instance
+	conc := 0
+	if r.Intn(20) == 0 {
+		conc = 3
+	}
 	// consumer: every documented kind, a pre-state each
 	for _, kind := range append(append([]string{}, destRecordKinds...), destByteKinds...) {
 		c := &Case{Dir: "consume", Kind: kind, Text: mon.Q(text), Opts: o, S: genReadScript(r, len(text), 6)}
@@ -321,6 +326,13 @@ func genGroup(r *rand.Rand, idx int) []*Case {
 					c.Obj, c.Opts.WComma = &ObjOpts{Comma: o.WComma}, ""
 				case o.WComma == "" && r.Intn(4) == 0:
 					c.Obj = &ObjOpts{Comma: []string{";", "\t", "|"}[r.Intn(3)]}
+				}
+				// the caller's own UseCRLF on its writer object, the codec's writer options without it
+				if conc == 0 && ((o.CRLF && r.Intn(2) == 0) || (!o.CRLF && r.Intn(8) == 0)) {
+					if c.Obj == nil {
+						c.Obj = &ObjOpts{}
+					}
+					c.Obj.CRLF, c.Opts.CRLF = true, false
 				}
 			}
 		} else if strings.HasPrefix(kind, "*") {
@@ -366,6 +378,9 @@ func genGroup(r *rand.Rand, idx int) []*Case {
 		case 1:
 			c.RK, c.S = []string{"bytes.Buffer", "bytes.Reader", "strings.Reader"}[r.Intn(3)], Script{}
 		}
+		if !c.PreNil {
+			c.Conc = conc
+		}
 		out = append(out, c)
 	}
 	// a few undocumented kinds
@@ -392,10 +407,36 @@ func genGroup(r *rand.Rand, idx int) []*Case {
 				c.Obj.FPR, c.Opts.FPR = o.FPR, 0
 			}
 		}
+		if kind == "*csv.Reader" && conc == 0 {
+			// the caller's own LazyQuotes / TrimLeadingSpace / ReuseRecord on its reader object, the codec's reader
+			// options without them (one of them per case)
+			var mine []string
+			for _, b := range []struct {
+				name string
+				on   bool
+			}{{"lazy", o.Lazy}, {"trim", o.Trim}, {"reuse", o.Reuse}} {
+				if (b.on && r.Intn(2) == 0) || (!b.on && r.Intn(10) == 0) {
+					mine = append(mine, b.name)
+				}
+			}
+			if len(mine) > 0 {
+				if c.Obj == nil {
+					c.Obj = &ObjOpts{}
+				}
+				switch mine[r.Intn(len(mine))] {
+				case "lazy":
+					c.Obj.Lazy, c.Opts.Lazy = true, false
+				case "trim":
+					c.Obj.Trim, c.Opts.Trim = true, false
+				case "reuse":
+					c.Obj.Reuse, c.Opts.Reuse = true, false
+				}
+			}
+		}
 		switch kind {
 		case "*csv.Reader", "reader", "readcloser", "writerto":
 			c.O = genReadScript(r, len(text), 6)
-		case "csvreader":
+		case "csvreader", "csvreader-reusing":
 			if r.Intn(12) == 0 {
 				c.O = Script{Fault: true, ErrAt: r.Intn(len(recs) + 1)} // the CSVReader's own Read fails
 			}
@@ -410,7 +451,28 @@ func genGroup(r *rand.Rand, idx int) []*Case {
 		if r.Intn(6) == 0 {
 			c.Post = 1 + r.Intn(2)
 		}
+		// the writer: the caller's own *bufio.Writer (4096 bytes: csv.NewWriter adopts it; 16 bytes: it does not)
+		// over the scripted sink, or a *bytes.Buffer
+		switch r.Intn(12) {
+		case 0:
+			c.WK = "bufio"
+		case 1:
+			c.WK = "bufio16"
+		case 2:
+			c.WK, c.S = "bytes.Buffer", Script{}
+		}
+		c.Conc = conc
 		out = append(out, c)
+	}
+	// one group in 8: no reader, no writer, no data (an error is owed, not a panic); a typed-nil pointer source (probe)
+	if r.Intn(8) == 0 {
+		all := append(append([]string{}, destRecordKinds...), destByteKinds...)
+		out = append(out,
+			&Case{Dir: "consume", Kind: all[r.Intn(len(all))], RK: "nil", Text: mon.Q(text), Opts: o},
+			&Case{Dir: "produce", Kind: srcTextKinds[r.Intn(len(srcTextKinds))], WK: "nil", Text: mon.Q(text), Opts: o},
+			&Case{Dir: "produce", Kind: "nil", Text: mon.Q(text), Opts: o},
+			&Case{Dir: "produce", Kind: srcNilKinds[1+r.Intn(len(srcNilKinds)-1)], Text: mon.Q(text), Opts: o},
+		)
 	}
 	return out
 }
